@@ -98,6 +98,7 @@ class State:
         self.ghost = {"SLEPT": Val("Real", z3.RealVal(0))}
         self.suspend_heap = None
         self.spec_side = []
+        self.trail = []          # outcomes chosen for contract calls on this path (callee:ok / callee:ExcClass)
         self.suspend_ghost = None
         self.label = label
         self.notes = []
@@ -270,6 +271,7 @@ class State:
             m = dict(meta or {})
             m.setdefault("path", list(self.trace[: self.pos]))
             m.setdefault("label", self.label)
+            m.setdefault("trail", list(self.trail))
             self.sink.append((key, Obligation(name, self.pc, goal, m)))
         else:
             m = dict(meta or {})
